@@ -1,6 +1,6 @@
 (* C07 - each encoder emits only valid documents that an independent decoder reads back.
    Statements only; proofs are in Cbor/RoundtripProofs.v (CBOR). *)
-From SF Require Import Base.Prelude Core.Events Cbor.Spec Cbor.Enc Cbor.RoundtripProofs.
+From SF Require Import Base.Prelude Base.Utf8 Core.Events Cbor.Spec Cbor.Enc Cbor.RoundtripProofs Json.Enc Json.EncProofs.
 
 (* CBOR.  For every well-formed tree (= every well-formed event stream describing one
    value: any nesting, announced and unknown lengths, every scalar kind, the typed
@@ -40,3 +40,48 @@ Example C07_cbor_nonvacuous :
                            TObj 1 BAny [([107], true, TVal (SStr [228; 189; 160]) true)]] in
   wf_tree t = true /\ tree_small t = true.
 Proof. vm_compute. split; reflexivity. Qed.
+
+(* JSON.  strconv.AppendFloat is a parameter [ffmt] of the encoder model; the only fact
+   assumed about it is that it writes characters of "+-.0123456789e" ([fchars]).
+   For every well-formed tree whose floats are finite (or with ignoreInvalidFloat set),
+   under every option setting, the encoder model succeeds, and its output contains no
+   raw control character, is valid UTF-8, and has no raw '<', '>' or '&' when HTML
+   escaping is on. *)
+Theorem C07_json_text : forall (ffmt : Z -> Z -> bytes),
+  (forall w b, Forall (fun c => In c fchars) (ffmt w b)) ->
+  forall cfg t, wf_tree t = true ->
+    (ignore_invalid cfg = true \/ tree_finite t = true) ->
+    exists e', json_run cfg ffmt (jenc0 None) (flatten t) 0 = JRun e' None /\
+      je_first e' = bs0 /\ je_inarr e' = bs0 /\
+      Forall (fun b => 32 <= b < 256) (w_bytes (je_w e')) /\
+      utf8_valid (w_bytes (je_w e')) = true /\
+      (escape_html cfg = true -> Forall (fun b => b <> 60 /\ b <> 62 /\ b <> 38) (w_bytes (je_w e'))).
+Proof. exact C07_C17_json_tree. Qed.
+Print Assumptions C07_json_text.
+
+(* The three text predicates hold for EVERY call sequence that succeeded, well-formed or
+   not (UTF-8 validity even without any premise on the events). *)
+Theorem C07_json_utf8_always : forall (ffmt : Z -> Z -> bytes),
+  (forall w b, Forall (fun c => In c fchars) (ffmt w b)) ->
+  forall cfg evs e', json_run cfg ffmt (jenc0 None) evs 0 = JRun e' None ->
+  utf8_valid (w_bytes (je_w e')) = true.
+Proof. exact C07_json_utf8. Qed.
+Print Assumptions C07_json_utf8_always.
+
+(* Non-finite floats are refused with the error class 1 - after the separator, nothing
+   else - or written as the token null when ignoreInvalidFloat is set: never invalid text. *)
+Theorem C07_json_nonfinite : forall (ffmt : Z -> Z -> bytes) cfg e w bits,
+  nonfinite w bits = true -> w_fail (je_w e) = None ->
+  exists e', jfloat cfg ffmt e w bits = JR e' (if ignore_invalid cfg then jnil else 1) /\
+    w_bytes (je_w e') = w_bytes (je_w e) ++ sep e ++ (if ignore_invalid cfg then [110;117;108;108] else []).
+Proof. exact EncProofs.C07_json_nonfinite. Qed.
+Print Assumptions C07_json_nonfinite.
+
+(* With an explicit radix point requested every finite float token contains a '.'. *)
+Theorem C07_json_radix : forall (ffmt : Z -> Z -> bytes) cfg e w bits,
+  explicit_radix cfg = true -> nonfinite w bits = false -> w_fail (je_w e) = None ->
+  exists e' tok, jfloat cfg ffmt e w bits = JR e' jnil /\
+    w_bytes (je_w e') = w_bytes (je_w e) ++ sep e ++ tok /\ In 46 tok /\
+    (tok = ffmt w bits \/ exists idx, tok = firstn idx (ffmt w bits) ++ [46;48] ++ skipn idx (ffmt w bits)).
+Proof. exact EncProofs.C07_json_radix. Qed.
+Print Assumptions C07_json_radix.
